@@ -62,6 +62,41 @@ func orderRuleFuncsX(c *an.Ctx, cg *an.CG, fns []*ssa.Function, table map[string
 	c.Count("repo_functions_analysed", len(fns))
 	n := 0
 	unsorted := map[*ssa.Function]an.LoopClass{}
+	// a loop is keyed by its owner: the function itself, or - for a private helper with a single static caller -
+	// that caller (so that moving a loop into a helper does not rename the obligation); loops of one owner are
+	// numbered owner-first, then by helper name
+	type loopAt struct {
+		fn *ssa.Function
+		i  int
+	}
+	byOwner := map[*ssa.Function][]loopAt{}
+	for _, fn := range fns {
+		if scope != nil && !scope(fn) {
+			continue
+		}
+		if strings.HasSuffix(c.P.Fset.Position(fn.Pos()).Filename, "_test.go") {
+			continue
+		}
+		for i := range an.MapLoops(fn) {
+			o := loopOwner(c, cg, fn)
+			byOwner[o] = append(byOwner[o], loopAt{fn, i})
+		}
+	}
+	ordinal := map[loopAt]int{}
+	for o, ls := range byOwner {
+		sort.SliceStable(ls, func(a, b int) bool {
+			if (ls[a].fn == o) != (ls[b].fn == o) {
+				return ls[a].fn == o
+			}
+			if ls[a].fn != ls[b].fn {
+				return ls[a].fn.String() < ls[b].fn.String()
+			}
+			return ls[a].i < ls[b].i
+		})
+		for k, l := range ls {
+			ordinal[l] = k + 1
+		}
+	}
 	for _, fn := range fns {
 		if scope != nil && !scope(fn) {
 			continue
@@ -70,12 +105,20 @@ func orderRuleFuncsX(c *an.Ctx, cg *an.CG, fns []*ssa.Function, table map[string
 			continue
 		}
 		loops := an.MapLoops(fn)
+		owner := an.FuncName(fn)
+		if len(loops) > 0 {
+			owner = an.FuncName(loopOwner(c, cg, fn))
+		}
 		for i, l := range loops {
 			n++
-			key := fmt.Sprintf("%s|%s|map-range#%d", keyPrefix, an.FuncName(fn), i+1)
+			key := fmt.Sprintf("%s|%s|map-range#%d", keyPrefix, owner, ordinal[loopAt{fn, i}])
 			rule := "the outcome of a loop over a Go map must not depend on iteration order (commutative body, collect-then-sort, or exists-failure exit)"
 			site := c.P.Rel(l.Range.Pos())
-			if why, ok := table[an.FuncName(fn)]; ok {
+			why, ok := table[an.FuncName(fn)]
+			if !ok {
+				why, ok = table[owner]
+			}
+			if ok {
 				c.Note(key, rule, site, "decided by reading: "+why)
 				continue
 			}
@@ -373,4 +416,47 @@ func keyIsOwnField(mu *ssa.MapUpdate, field string) bool {
 		}
 	}
 	return false
+}
+
+// loopOwner: fn itself, or for an unexported function with exactly one static caller function, that caller's owner
+// (at most three levels).
+func loopOwner(c *an.Ctx, cg *an.CG, fn *ssa.Function) *ssa.Function {
+	cur := fn
+	for d := 0; d < 3; d++ {
+		if cur.Parent() != nil || cur.Object() == nil || cur.Object().Exported() {
+			return cur
+		}
+		callers := map[*ssa.Function]bool{}
+		selfRec := false
+		for _, k := range an.Calls(cur) {
+			if k.Common().StaticCallee() == cur {
+				selfRec = true
+			}
+		}
+		if selfRec {
+			return cur // a recursive function is a unit of its own, not a block moved out of its caller
+		}
+		for _, e := range cg.Callers(cur) {
+			if e.Site == nil || e.Site.Common().StaticCallee() != cur {
+				return cur // called through a value or an interface: not a private helper of one caller
+			}
+			g := e.Caller.Func
+			for g.Parent() != nil {
+				g = g.Parent()
+			}
+			if g != cur {
+				callers[g] = true
+			}
+		}
+		if len(callers) != 1 {
+			return cur
+		}
+		for g := range callers {
+			if strings.HasSuffix(c.P.Fset.Position(g.Pos()).Filename, "_test.go") {
+				return cur
+			}
+			cur = g
+		}
+	}
+	return cur
 }
